@@ -72,7 +72,7 @@ contract, a unit the property depends on but did not list — the frame codec fo
 closed by adding the clause or the unit, and attribution was made to follow the anchor files.  One miss of the last round
 (C17-9, a connection-level receive window set in `quic.rs`) is detected only by the end-to-end search of the thorough tier.
 Round 5 also produced defect `923ac9d` of §2.7 (a sub-agent noticed that the unchanged tree already stalls under the load it
-wanted to use for a seed).  Three seeds and five behaviour-preserving changes whose patches touched the lines that fix moved
+wanted to use for a seed).  Two seeds (C04-2, C12-4) and five behaviour-preserving changes whose patches touched the lines that fix moved
 were rebased by hand onto it (noted in their `notes.md`) and confirmed again; one early seed, C04-3 (write half kept locked while
 waiting for the reply), no longer breaks C04 on the repaired tree — its demonstration passes — and moved to `benign/F-b9`, and the
 clause that had caught it was removed as stronger than the property (§4 C04).  Final state (`seeded/RESULTS.md`, last run of
@@ -93,7 +93,7 @@ clause that had caught it was removed as stronger than the property (§4 C04).  
     nok = sum(1 for r in ben if r[2] == "OK")
     nun = sum(1 for r in ben if r[2].startswith("UNDEC"))
     nfa = sum(1 for r in ben if "VIOLATION" in r[2])
-    changes = sorted(set(r[0] for r in ben))
+    changes = sorted(set(r[0] for r in ben), key=lambda c: (c.split('-b')[0], int(c.split('-b')[1])))
     out.append(f"""### 5.2 Behaviour-preserving changes (false-alarm campaign)
 
 `benign/<group>-b1..b8/` holds {len(changes)} changes that keep every property true: eight sub-agents (one per group of anchor files, A–H) each
@@ -103,6 +103,11 @@ made a trivial one (renamed locals, reworded comments/log text), a mild one (reo
 second round of eight sub-agents added b5–b8 (idiom modernisation, added diagnostics — doc comments, log lines, debug assertions —, a
 micro-optimisation, housekeeping such as constants, aliases and moved items) and was run blind: no false alarm, one crash of the driver (an index error on a
 macro-expansion span; the driver now turns any internal error into UNDECIDED).
+A third round (b10–b13, eight sub-agents again) asked for changes that are **not** no-ops but that no property forbids: something
+observable the properties leave open (error texts, capacities, defaults, the order in which independent peers are served), extra
+defensive work, a different data structure or algorithm with the same guarantees, a small feature whose default keeps today's
+behaviour.  `F-b9` is the former seed C04-3 (see 5.1).  This round is the sharper test of "no alarm where the property holds":
+a clause that is stronger than the property fails on such a change.  It was run blind as well; what it found is listed below the table.
 `benignall.py` applies each and runs the checks of every property anchored in the touched files and of every property one of
 whose units extracts code from a touched file.  A VIOLATION here is a false
 alarm.  Last run: **{nok} OK, {nun} undecided, {nfa} false alarms** in {len(ben)} check runs.
